@@ -11,6 +11,8 @@ CONSTANTS
   SpacedNames = {}
   CommandWords = {}
   StartupKinds = {"Synchronization", "Added", "Group", "Schedule"}
+  ConvGroups1 = {""}
+  ConvGroups2 = {""}
   MaxDefArr = 2
   WithEmpty = TRUE
   WithConfig = TRUE
